@@ -9,6 +9,20 @@
    matching is a parameter [fmatch] of the step function (the honest filter
    is [matches]).  No proofs in this file.
 
+   The waiting phase (rescanState.waitForBlocks, called twice at the entry
+   of rescan(): until the chain source has reached the start height, then
+   until it is current or has reached the end block) is part of the model:
+   BestBlock, the predicate on the best block, Subscribe(best height), and a
+   select over Update calls, block notifications and the quit channel.  An
+   update received there is appended to the queue [wq] of the running
+   waitForBlocks call and the WHOLE queue is applied (updateFilter, rewinds
+   included) after every select case that falls through to the end of the
+   loop body - the update case itself and a connected notification that
+   does not satisfy the predicate; the queue is never cleared, so earlier
+   updates are applied again (duplicating their watch-list entries).  A
+   connected notification that satisfies the predicate leaves the loop
+   without applying the queue.  Disconnected notifications are skipped.
+
    Granularity: the rescan goroutine is always blocked either inside one
    ChainSource call (pc says which; the call returns when the event [TCall r]
    happens, and its result is computed from the chain AS IT IS THEN), or in
@@ -50,17 +64,26 @@ Inductive ev :=
 | EvUpdate (u : update)                          (* a Rescan.Update call blocks in its send *)
 | TCall (r : res)                                (* the pending ChainSource call returns *)
 | TRecvNtfn                                      (* select: a block notification *)
-| TRetry.                                        (* select: the retry timer *)
+| TRetry                                         (* select: the retry timer *)
+| EvCurrent (b : bool)                           (* ChainSource.IsCurrent() answers b from now on *)
+| EvQuit.                                        (* the quit channel is closed *)
 
 Inductive ctx := CNtfn | CRetry.                 (* who called handleBlockConnected *)
-Inductive uctx := USelect | UDrain.              (* who called updateFilter *)
+(* who called updateFilter; UWait ph: the queue loop of waitForBlocks number ph *)
+Inductive uctx := USelect | UDrain | UWait (ph : bool).
 
 Inductive pcT :=
 | PIdle | PSelect
 | PBest | PHdr | PBack | PSub | PFilC | PBlkC    (* catch-up branch; PBack: GetBlockHeader(prev) after a non-child *)
 | PFH (h : hdr) (c : ctx) | PFil (h : hdr) (c : ctx) | PBlk (h : hdr) (c : ctx)
 | PRew (target : Z) (c : uctx)                   (* updateFilter: GetBlockHeader(prev) *)
-| PDone | PDead.
+| PDone | PDead
+| PExit                                          (* returned ErrRescanExit *)
+(* waitForBlocks; ph = false: until the start height is reached, ph = true:
+   until the chain source is current or the end block is reached *)
+| PWBest (ph : bool)                             (* BestBlock *)
+| PWSub (ph : bool) (k : Z)                      (* Subscribe(best height seen by BestBlock) *)
+| PWait (ph : bool).                             (* the select *)
 
 (* callbacks: OnFilteredBlockConnected(height, header, txs) and
    OnFilteredBlockDisconnected(height, header) *)
@@ -72,7 +95,7 @@ Inductive cb :=
    1 BestBlock, 2 GetBlockHeaderByHeight h, 3 Subscribe h,
    4 GetFilterHeaderByHeight h, 5 GetCFilter id, 6 GetBlock id,
    7 GetBlockHeader id *)
-Inductive blocked := BIdle | BSelect | BCall (kind arg : Z) | BDone | BDead.
+Inductive blocked := BIdle | BSelect | BCall (kind arg : Z) | BDone | BDead | BExit.
 
 Record obs := { ocbs : list cb; orecv : bool; oblk : blocked }.
 
@@ -86,12 +109,17 @@ Record state := {
   seen : list block;           (* every block ever on the best chain *)
   pend : option update;        (* an Update call parked in its send *)
   sub : option (list ntfn);    (* notifications queued for the live subscription *)
+  iscur : bool;                (* what ChainSource.IsCurrent() answers *)
+  quitf : bool;                (* the quit channel is closed *)
   (* rescan goroutine *)
   pc : pcT;
   cur : hdr; curh : Z;         (* curHeader / curStamp *)
   current : bool; scanning : bool;
   retryq : list hdr; armed : bool;
-  w : watch; cfg : rcfg;
+  w : watch;
+  wq : list update;            (* waitForBlocks: [updates], the queue of the running call *)
+  wrest : list update;         (* waitForBlocks: what the running pass over the queue has still to apply *)
+  cfg : rcfg;
   (* output of the running step *)
   outq : list cb; recvd : bool;
   (* ghost: never read by the behaviour *)
@@ -100,21 +128,25 @@ Record state := {
 }.
 
 (* ------------------------------------------------------------- setters *)
-Definition set_chain x s := {| chain := x; seen := seen s; pend := pend s; sub := sub s; pc := pc s; cur := cur s; curh := curh s; current := current s; scanning := scanning s; retryq := retryq s; armed := armed s; w := w s; cfg := cfg s; outq := outq s; recvd := recvd s; told := told s; gf := gf s |}.
-Definition set_seen x s := {| chain := chain s; seen := x; pend := pend s; sub := sub s; pc := pc s; cur := cur s; curh := curh s; current := current s; scanning := scanning s; retryq := retryq s; armed := armed s; w := w s; cfg := cfg s; outq := outq s; recvd := recvd s; told := told s; gf := gf s |}.
-Definition set_pend x s := {| chain := chain s; seen := seen s; pend := x; sub := sub s; pc := pc s; cur := cur s; curh := curh s; current := current s; scanning := scanning s; retryq := retryq s; armed := armed s; w := w s; cfg := cfg s; outq := outq s; recvd := recvd s; told := told s; gf := gf s |}.
-Definition set_sub x s := {| chain := chain s; seen := seen s; pend := pend s; sub := x; pc := pc s; cur := cur s; curh := curh s; current := current s; scanning := scanning s; retryq := retryq s; armed := armed s; w := w s; cfg := cfg s; outq := outq s; recvd := recvd s; told := told s; gf := gf s |}.
-Definition set_pc x s := {| chain := chain s; seen := seen s; pend := pend s; sub := sub s; pc := x; cur := cur s; curh := curh s; current := current s; scanning := scanning s; retryq := retryq s; armed := armed s; w := w s; cfg := cfg s; outq := outq s; recvd := recvd s; told := told s; gf := gf s |}.
-Definition set_cur x k s := {| chain := chain s; seen := seen s; pend := pend s; sub := sub s; pc := pc s; cur := x; curh := k; current := current s; scanning := scanning s; retryq := retryq s; armed := armed s; w := w s; cfg := cfg s; outq := outq s; recvd := recvd s; told := told s; gf := gf s |}.
-Definition set_current x s := {| chain := chain s; seen := seen s; pend := pend s; sub := sub s; pc := pc s; cur := cur s; curh := curh s; current := x; scanning := scanning s; retryq := retryq s; armed := armed s; w := w s; cfg := cfg s; outq := outq s; recvd := recvd s; told := told s; gf := gf s |}.
-Definition set_scanning x s := {| chain := chain s; seen := seen s; pend := pend s; sub := sub s; pc := pc s; cur := cur s; curh := curh s; current := current s; scanning := x; retryq := retryq s; armed := armed s; w := w s; cfg := cfg s; outq := outq s; recvd := recvd s; told := told s; gf := gf s |}.
-Definition set_retryq x s := {| chain := chain s; seen := seen s; pend := pend s; sub := sub s; pc := pc s; cur := cur s; curh := curh s; current := current s; scanning := scanning s; retryq := x; armed := armed s; w := w s; cfg := cfg s; outq := outq s; recvd := recvd s; told := told s; gf := gf s |}.
-Definition set_armed x s := {| chain := chain s; seen := seen s; pend := pend s; sub := sub s; pc := pc s; cur := cur s; curh := curh s; current := current s; scanning := scanning s; retryq := retryq s; armed := x; w := w s; cfg := cfg s; outq := outq s; recvd := recvd s; told := told s; gf := gf s |}.
-Definition set_w x s := {| chain := chain s; seen := seen s; pend := pend s; sub := sub s; pc := pc s; cur := cur s; curh := curh s; current := current s; scanning := scanning s; retryq := retryq s; armed := armed s; w := x; cfg := cfg s; outq := outq s; recvd := recvd s; told := told s; gf := gf s |}.
-Definition set_cfg x s := {| chain := chain s; seen := seen s; pend := pend s; sub := sub s; pc := pc s; cur := cur s; curh := curh s; current := current s; scanning := scanning s; retryq := retryq s; armed := armed s; w := w s; cfg := x; outq := outq s; recvd := recvd s; told := told s; gf := gf s |}.
-Definition set_out x r s := {| chain := chain s; seen := seen s; pend := pend s; sub := sub s; pc := pc s; cur := cur s; curh := curh s; current := current s; scanning := scanning s; retryq := retryq s; armed := armed s; w := w s; cfg := cfg s; outq := x; recvd := r; told := told s; gf := gf s |}.
-Definition set_told x s := {| chain := chain s; seen := seen s; pend := pend s; sub := sub s; pc := pc s; cur := cur s; curh := curh s; current := current s; scanning := scanning s; retryq := retryq s; armed := armed s; w := w s; cfg := cfg s; outq := outq s; recvd := recvd s; told := x; gf := gf s |}.
-Definition set_gf x s := {| chain := chain s; seen := seen s; pend := pend s; sub := sub s; pc := pc s; cur := cur s; curh := curh s; current := current s; scanning := scanning s; retryq := retryq s; armed := armed s; w := w s; cfg := cfg s; outq := outq s; recvd := recvd s; told := told s; gf := x |}.
+Definition set_chain x s := {| chain := x; seen := seen s; pend := pend s; sub := sub s; iscur := iscur s; quitf := quitf s; pc := pc s; cur := cur s; curh := curh s; current := current s; scanning := scanning s; retryq := retryq s; armed := armed s; w := w s; wq := wq s; wrest := wrest s; cfg := cfg s; outq := outq s; recvd := recvd s; told := told s; gf := gf s |}.
+Definition set_seen x s := {| chain := chain s; seen := x; pend := pend s; sub := sub s; iscur := iscur s; quitf := quitf s; pc := pc s; cur := cur s; curh := curh s; current := current s; scanning := scanning s; retryq := retryq s; armed := armed s; w := w s; wq := wq s; wrest := wrest s; cfg := cfg s; outq := outq s; recvd := recvd s; told := told s; gf := gf s |}.
+Definition set_pend x s := {| chain := chain s; seen := seen s; pend := x; sub := sub s; iscur := iscur s; quitf := quitf s; pc := pc s; cur := cur s; curh := curh s; current := current s; scanning := scanning s; retryq := retryq s; armed := armed s; w := w s; wq := wq s; wrest := wrest s; cfg := cfg s; outq := outq s; recvd := recvd s; told := told s; gf := gf s |}.
+Definition set_sub x s := {| chain := chain s; seen := seen s; pend := pend s; sub := x; iscur := iscur s; quitf := quitf s; pc := pc s; cur := cur s; curh := curh s; current := current s; scanning := scanning s; retryq := retryq s; armed := armed s; w := w s; wq := wq s; wrest := wrest s; cfg := cfg s; outq := outq s; recvd := recvd s; told := told s; gf := gf s |}.
+Definition set_iscur x s := {| chain := chain s; seen := seen s; pend := pend s; sub := sub s; iscur := x; quitf := quitf s; pc := pc s; cur := cur s; curh := curh s; current := current s; scanning := scanning s; retryq := retryq s; armed := armed s; w := w s; wq := wq s; wrest := wrest s; cfg := cfg s; outq := outq s; recvd := recvd s; told := told s; gf := gf s |}.
+Definition set_quitf x s := {| chain := chain s; seen := seen s; pend := pend s; sub := sub s; iscur := iscur s; quitf := x; pc := pc s; cur := cur s; curh := curh s; current := current s; scanning := scanning s; retryq := retryq s; armed := armed s; w := w s; wq := wq s; wrest := wrest s; cfg := cfg s; outq := outq s; recvd := recvd s; told := told s; gf := gf s |}.
+Definition set_pc x s := {| chain := chain s; seen := seen s; pend := pend s; sub := sub s; iscur := iscur s; quitf := quitf s; pc := x; cur := cur s; curh := curh s; current := current s; scanning := scanning s; retryq := retryq s; armed := armed s; w := w s; wq := wq s; wrest := wrest s; cfg := cfg s; outq := outq s; recvd := recvd s; told := told s; gf := gf s |}.
+Definition set_current x s := {| chain := chain s; seen := seen s; pend := pend s; sub := sub s; iscur := iscur s; quitf := quitf s; pc := pc s; cur := cur s; curh := curh s; current := x; scanning := scanning s; retryq := retryq s; armed := armed s; w := w s; wq := wq s; wrest := wrest s; cfg := cfg s; outq := outq s; recvd := recvd s; told := told s; gf := gf s |}.
+Definition set_scanning x s := {| chain := chain s; seen := seen s; pend := pend s; sub := sub s; iscur := iscur s; quitf := quitf s; pc := pc s; cur := cur s; curh := curh s; current := current s; scanning := x; retryq := retryq s; armed := armed s; w := w s; wq := wq s; wrest := wrest s; cfg := cfg s; outq := outq s; recvd := recvd s; told := told s; gf := gf s |}.
+Definition set_retryq x s := {| chain := chain s; seen := seen s; pend := pend s; sub := sub s; iscur := iscur s; quitf := quitf s; pc := pc s; cur := cur s; curh := curh s; current := current s; scanning := scanning s; retryq := x; armed := armed s; w := w s; wq := wq s; wrest := wrest s; cfg := cfg s; outq := outq s; recvd := recvd s; told := told s; gf := gf s |}.
+Definition set_armed x s := {| chain := chain s; seen := seen s; pend := pend s; sub := sub s; iscur := iscur s; quitf := quitf s; pc := pc s; cur := cur s; curh := curh s; current := current s; scanning := scanning s; retryq := retryq s; armed := x; w := w s; wq := wq s; wrest := wrest s; cfg := cfg s; outq := outq s; recvd := recvd s; told := told s; gf := gf s |}.
+Definition set_w x s := {| chain := chain s; seen := seen s; pend := pend s; sub := sub s; iscur := iscur s; quitf := quitf s; pc := pc s; cur := cur s; curh := curh s; current := current s; scanning := scanning s; retryq := retryq s; armed := armed s; w := x; wq := wq s; wrest := wrest s; cfg := cfg s; outq := outq s; recvd := recvd s; told := told s; gf := gf s |}.
+Definition set_cfg x s := {| chain := chain s; seen := seen s; pend := pend s; sub := sub s; iscur := iscur s; quitf := quitf s; pc := pc s; cur := cur s; curh := curh s; current := current s; scanning := scanning s; retryq := retryq s; armed := armed s; w := w s; wq := wq s; wrest := wrest s; cfg := x; outq := outq s; recvd := recvd s; told := told s; gf := gf s |}.
+Definition set_told x s := {| chain := chain s; seen := seen s; pend := pend s; sub := sub s; iscur := iscur s; quitf := quitf s; pc := pc s; cur := cur s; curh := curh s; current := current s; scanning := scanning s; retryq := retryq s; armed := armed s; w := w s; wq := wq s; wrest := wrest s; cfg := cfg s; outq := outq s; recvd := recvd s; told := x; gf := gf s |}.
+Definition set_gf x s := {| chain := chain s; seen := seen s; pend := pend s; sub := sub s; iscur := iscur s; quitf := quitf s; pc := pc s; cur := cur s; curh := curh s; current := current s; scanning := scanning s; retryq := retryq s; armed := armed s; w := w s; wq := wq s; wrest := wrest s; cfg := cfg s; outq := outq s; recvd := recvd s; told := told s; gf := x |}.
+Definition set_cur x k s := {| chain := chain s; seen := seen s; pend := pend s; sub := sub s; iscur := iscur s; quitf := quitf s; pc := pc s; cur := x; curh := k; current := current s; scanning := scanning s; retryq := retryq s; armed := armed s; w := w s; wq := wq s; wrest := wrest s; cfg := cfg s; outq := outq s; recvd := recvd s; told := told s; gf := gf s |}.
+Definition set_out x r s := {| chain := chain s; seen := seen s; pend := pend s; sub := sub s; iscur := iscur s; quitf := quitf s; pc := pc s; cur := cur s; curh := curh s; current := current s; scanning := scanning s; retryq := retryq s; armed := armed s; w := w s; wq := wq s; wrest := wrest s; cfg := cfg s; outq := x; recvd := r; told := told s; gf := gf s |}.
+Definition set_wq x r s := {| chain := chain s; seen := seen s; pend := pend s; sub := sub s; iscur := iscur s; quitf := quitf s; pc := pc s; cur := cur s; curh := curh s; current := current s; scanning := scanning s; retryq := retryq s; armed := armed s; w := w s; wq := x; wrest := r; cfg := cfg s; outq := outq s; recvd := recvd s; told := told s; gf := gf s |}.
+Definition set_wrest x s := {| chain := chain s; seen := seen s; pend := pend s; sub := sub s; iscur := iscur s; quitf := quitf s; pc := pc s; cur := cur s; curh := curh s; current := current s; scanning := scanning s; retryq := retryq s; armed := armed s; w := w s; wq := wq s; wrest := x; cfg := cfg s; outq := outq s; recvd := recvd s; told := told s; gf := gf s |}.
 
 Definition flag_nf s :=
   set_gf {| g_nf := true; g_coll := g_coll (gf s) |} s.
@@ -186,8 +218,10 @@ Definition at_end (s : state) : bool :=
   | None => false
   end.
 
+(* the select of the current branch (quit closed: ErrRescanExit), or the
+   catch-up branch, which never looks at the quit channel *)
 Definition settle (s : state) : state :=
-  set_pc (if current s then PSelect else PBest) s.
+  set_pc (if current s then (if quitf s then PExit else PSelect) else PBest) s.
 
 (* receive the pending update [u] (select case, or the drain loop of the
    catch-up branch): extend the watch state, start rewinding if asked *)
@@ -210,6 +244,56 @@ Definition goto_top (s : state) : state :=
        | Some u => recv_update u (if current s then USelect else UDrain) s
        | None => settle s
        end.
+
+(* ------------------------------------------------------ waitForBlocks *)
+(* the predicate of waitForBlocks number ph on block (id, height k) *)
+Definition wpred (ph : bool) (id : N) (k : Z) (s : state) : bool :=
+  if ph then
+    iscur s ||
+    match endb (cfg s) with
+    | Some (eid, eh) => ((0 <? eh) && (eh <=? k)) || N.eqb id eid
+    | None => false
+    end
+  else curh s <=? k.
+
+(* the select of waitForBlocks *)
+Definition enter_wait (ph : bool) (s : state) : state :=
+  set_pc (if quitf s then PExit else PWait ph) s.
+
+(* "for _, upd := range updates { updateFilter(upd) }": [q] is what is left
+   of the pass (kept in [wrest] across the GetBlockHeader calls of a rewind) *)
+Fixpoint apply_q (ph : bool) (q : list update) (s : state) : state :=
+  match q with
+  | [] => enter_wait ph (set_wrest [] s)
+  | u :: r =>
+    let s1 := set_wrest r (set_w (add_update u (w s)) s) in
+    if (urewind u <=? 0) || (curh s1 <=? urewind u) then apply_q ph r s1
+    else set_pc (PRew (urewind u) (UWait ph)) (emit_disc s1)
+  end.
+
+(* the update case of the select: queue it, then apply the whole queue *)
+Definition recv_wait (ph : bool) (u : update) (s : state) : state :=
+  let q := wq s ++ [u] in
+  apply_q ph q (set_wq q q (set_out (outq s) true (set_pend None s))).
+
+(* arriving at the select: an Update call parked in its send is received *)
+Definition wait_top (ph : bool) (s : state) : state :=
+  match pend s with
+  | Some u => recv_wait ph u s
+  | None => enter_wait ph s
+  end.
+Definition wait_settle (s : state) : state :=
+  match pc s with
+  | PWait ph => wait_top ph s
+  | _ => s
+  end.
+
+(* waitForBlocks returns nil: the deferred Cancel, the queue is dropped;
+   after the second wait rescan() computes [scanning] and enters rescanLoop *)
+Definition wait_exit (ph : bool) (s : state) : state :=
+  let s1 := set_wq [] [] (set_sub None s) in
+  if ph then goto_top (set_scanning (startT (cfg s1) <? htime (cur s1)) (set_current false s1))
+  else set_pc (PWBest true) s1.
 
 (* ------------------------------------------------ handleBlockConnected *)
 Definition scan_latch (h : hdr) (s : state) : state :=
@@ -275,9 +359,10 @@ Definition start_at (c : config) (h0 : hdr) (k : Z) (s : state) : state :=
             (set_w {| waddrs := caddrs c; winputs := cinputs c;
                       wlist := caddrs c ++ map snd (cinputs c) |}
             (set_told (hid h0, k) (set_cur h0 k s))) in
-  goto_top (set_scanning (cstartT c <? htime h0) (set_current false s1)).
+  set_pc (PWBest false) (set_wq [] [] (set_scanning false (set_current false s1))).
 
-(* newRescanState + the entry of rescan(): start block by height, else genesis *)
+(* newRescanState: start block by height, else genesis; rescan() begins with
+   the BestBlock call of the first waitForBlocks *)
 Definition start (c : config) (s : state) : state :=
   match by_height (cstart c) (chain s) with
   | Some h => start_at c h (cstart c) s
@@ -369,7 +454,19 @@ Definition do_call (r : res) (s : state) : state :=
       else match c with
            | USelect => goto_top (set_sub None (set_current false s1))
            | UDrain => after_drain s1     (* the drain loop goes on, no end check *)
+           | UWait ph => wait_settle (apply_q ph (wrest s1) s1)   (* the pass over the queue goes on *)
            end
+    end
+  | PWBest ph =>
+    match chain s with
+    | t :: _ =>
+      if wpred ph (hid t) (hh t) s then wait_exit ph s else set_pc (PWSub ph (hh t)) s
+    | [] => set_pc PDead s
+    end
+  | PWSub ph k =>
+    match backlog s k with
+    | None => set_pc PDead s
+    | Some q => wait_top ph (set_sub (Some q) s)
     end
   | _ => s
   end.
@@ -387,6 +484,14 @@ Definition do_ntfn (s : state) : state :=
       if N.eqb (hid h) (hid (cur s2))
       then goto_top (set_cur t (curh s2 - 1) (emit_disc s2))
       else goto_top s2
+    end
+  | PWait ph, Some (n :: q) =>
+    let s1 := set_sub (Some q) s in
+    match n with
+    | NConn h =>
+      if wpred ph (hid h) (hh h) s1 then wait_exit ph s1
+      else apply_q ph (wq s1) (set_wrest (wq s1) s1)
+    | NDisc _ _ => s1
     end
   | _, _ => s
   end.
@@ -410,12 +515,15 @@ Definition do_ev (e : ev) (s : state) : state :=
     end
   | EvStart c => match pc s with PIdle => start c s | _ => s end
   | EvUpdate u =>
+    if quitf s then s else
     match pend s, pc s with
     | Some _, _ => s
     | None, PIdle => s
     | None, PDone => s
     | None, PDead => s
+    | None, PExit => s
     | None, PSelect => recv_update u USelect s
+    | None, PWait ph => recv_wait ph u s
     | None, _ => set_pend (Some u) s
     end
   | TCall r => do_call r s
@@ -424,6 +532,14 @@ Definition do_ev (e : ev) (s : state) : state :=
     match pc s with
     | PSelect => if armed s then retry_loop (set_armed false s) else s
     | _ => s
+    end
+  | EvCurrent b => set_iscur b s
+  | EvQuit =>
+    match pend s, pc s with
+    | Some _, _ => s
+    | None, PSelect => set_pc PExit (set_quitf true s)
+    | None, PWait _ => set_pc PExit (set_quitf true s)
+    | None, _ => set_quitf true s
     end
   end.
 
@@ -443,6 +559,10 @@ Definition blocked_of (s : state) : blocked :=
   | PRew _ _ => BCall 7 (Z.of_N (hprev (cur s)))
   | PDone => BDone
   | PDead => BDead
+  | PExit => BExit
+  | PWBest _ => BCall 1 0
+  | PWSub _ k => BCall 3 k
+  | PWait _ => BSelect
   end.
 
 Definition step (s : state) (e : ev) : state * obs :=
@@ -455,9 +575,11 @@ Definition genesis (gid : N) (gtime : Z) : hdr :=
 Definition init (gid : N) (gtime : Z) : state :=
   let g := genesis gid gtime in
   {| chain := [g]; seen := [{| bh := g; btxs := [] |}]; pend := None; sub := None;
+     iscur := true; quitf := false;
      pc := PIdle; cur := g; curh := 0; current := false; scanning := false;
      retryq := []; armed := false;
      w := {| waddrs := []; winputs := []; wlist := [] |};
+     wq := []; wrest := [];
      cfg := {| startT := 0; endb := None |};
      outq := []; recvd := false; told := (gid, 0);
      gf := {| g_nf := false; g_coll := false |} |}.
